@@ -13,18 +13,21 @@ set_option maxHeartbeats 1600000
 
 theorem min_eq_eq (sr : SR) (p1 p2 : Ext) :
     Gen.Formulas.min_eq p1.X p1.Y p1.Z p1.T p2.X p2.Y p2.Z p2.T = p1.eq p2 := by
-  unfold Gen.Formulas.min_eq Ext.eq
-  formula_eq sr
+  first
+  | (unfold Gen.Formulas.min_eq Ext.eq; formula_eq sr; done)
+  | (unfold Gen.Formulas.min_eq Ext.eq; formula_booleq)
 
 theorem ark_eq_eq (sr : SR) (p1 p2 : Ext) :
     Gen.Formulas.ark_eq p1.X p1.Y p1.Z p1.T p2.X p2.Y p2.Z p2.T = p1.eq p2 := by
-  unfold Gen.Formulas.ark_eq Ext.eq
-  formula_eq sr
+  first
+  | (unfold Gen.Formulas.ark_eq Ext.eq; formula_eq sr; done)
+  | (unfold Gen.Formulas.ark_eq Ext.eq; formula_booleq)
 
 theorem ark_affine_eq_eq (sr : SR) (p1 p2 : Ext) :
     Gen.Formulas.ark_affine_eq p1.X p1.Y p1.Z p1.T p2.X p2.Y p2.Z p2.T = p1.eq p2 := by
-  unfold Gen.Formulas.ark_affine_eq Ext.eq
-  formula_eq sr
+  first
+  | (unfold Gen.Formulas.ark_affine_eq Ext.eq; formula_eq sr; done)
+  | (unfold Gen.Formulas.ark_affine_eq Ext.eq; formula_booleq)
 
 theorem min_is_identity_eq (sr : SR) (p : Ext) : Gen.Formulas.min_is_identity p.X p.Y p.Z p.T = p.isIdentity := by
   unfold Gen.Formulas.min_is_identity Ext.isIdentity
